@@ -32,6 +32,18 @@ pub fn run(rep: &mut Rep) {
         let d = if *k == 0 { depth } else { depth - 1 };
         explore_world(rep, &format!("exh{k}"), d, &move || World::boot(WorldCfg { seed, seed_ids: ids, ..Default::default() }), &a);
     }
+    // cancellation in the alphabet: an operation whose future was dropped after its request was written still owns the
+    // acknowledgement addressed to it (for pings: the next PINGRESP in wire order) - the others must not complete on it
+    let mut ca = a.clone();
+    ca.kinds = vec![Kind::Ping, Kind::Pub1, Kind::Pub2, Kind::Sub];
+    ca.drops = true;
+    ca.holds = false;
+    ca.spurious = false;
+    rep.note("exhaustive with cancellation: the same alphabet over {ping, pub1, pub2, sub} plus 'drop the future of any pending operation'; acknowledgements of cancelled operations are still delivered and must not complete anyone else");
+    {
+        let seed = rep.seed;
+        explore_world(rep, "exhc", depth, &move || World::boot(WorldCfg { seed, ..Default::default() }), &ca);
+    }
     // identifier pairs: two operations outstanding at once whose packet identifiers share the low byte, share the
     // high byte, are byte-swapped or differ in one bit - a correlation key that loses or mixes identifier bits shows here
     let pairs: [(u16, u16); 12] = [(1, 257), (255, 511), (256, 512), (0x0101, 0x0201), (1, 0x8001), (0x00ff, 0xff00), (0x1234, 0x3412), (2, 0x0202), (65535, 255), (0x7fff, 0xffff), (3, 0x0300), (0x0100, 0x0001)];
